@@ -1044,6 +1044,170 @@ func genGap(seed uint64) string {
 	return "(function() {\n" + s.String() + "})();\n"
 }
 
+// optional-chain programs: the shapes that minification turns into optional
+// chains ("a != null && a.b.c" => "a?.b.c", "a == null ? void 0 : a.b" => "a?.b"),
+// also over parenthesized chains "(a.q?.y).z" whose outer links are not part of the
+// chain (finding J), and calls marked pure inside optional chains, whose
+// arguments are only evaluated when the chain does not short-circuit (finding K);
+// run over null / undefined / objects with null links, logging getters and methods
+func genChain(seed uint64) string {
+	r := NewRng(seed)
+	s := &sb{}
+	id := 0
+	probe := func() string {
+		id++
+		return fmt.Sprintf("$(%d, %s)", id, []string{"\"q\"", "\"y\"", "1", "null", "\"z\""}[r.Intn(5)])
+	}
+	// links over an expression; paren wraps the chain so far in parentheses
+	var chain func(base string, n int) string
+	chain = func(base string, n int) string {
+		e := base
+		for i := 0; i < n; i++ {
+			opt := ""
+			if r.Chance(25) {
+				opt = "?."
+			}
+			switch r.Intn(7) {
+			case 0, 1, 2:
+				nm := []string{"q", "y", "z"}[r.Intn(3)]
+				if opt == "" {
+					e += "." + nm
+				} else {
+					e += "?." + nm
+				}
+			case 3:
+				e += opt + "[" + probe() + "]"
+			case 4:
+				if opt == "" {
+					e += ".m(" + probe() + ")"
+				} else {
+					e += "?.m(" + probe() + ")"
+				}
+			case 5:
+				e = "(" + e + ")"
+			default:
+				nm := []string{"q", "y"}[r.Intn(2)]
+				e += "." + nm
+			}
+		}
+		return e
+	}
+	guard := func() (string, bool) { // text, true when the guard is "non-null"
+		switch r.Intn(4) {
+		case 0:
+			return "p != null", true
+		case 1:
+			return "null != p", true
+		case 2:
+			return "p == null", false
+		default:
+			return "null == p", false
+		}
+	}
+	// most statements get their own try/catch so that a throwing link does not hide the rest
+	stmt := func(format string, a ...interface{}) {
+		text := fmt.Sprintf(format, a...)
+		if r.Chance(70) {
+			id++
+			s.line("try { %s } catch (e) { $(%d, [\"thrown\", e instanceof Error ? e.constructor.name : e]); }", text, id)
+		} else {
+			s.line("%s", text)
+		}
+	}
+	nf := r.Range(4, 7)
+	pureFn := make([]bool, nf)
+	for f := 0; f < nf; f++ {
+		pureFn[f] = f%3 == 2
+		s.line("function ch%d(p) {", f)
+		s.ind += 2
+		n := r.Range(3, 6)
+		for k := 0; k < n; k++ {
+			if pureFn[f] {
+				// calls marked pure: the callee is the identity function pf
+				t := []string{"p?.pf", "p?.q?.pf", "p?.q?.y?.pf", "(p?.q)?.pf"}[r.Intn(4)]
+				args := []string{probe(), probe() + ", 1", "1, " + probe(), "1, \"a\"", "p", ""}[r.Intn(6)]
+				call := fmt.Sprintf("/* @__PURE__ */ %s(%s)", t, args)
+				if strings.HasSuffix(t, "?.pf") && r.Chance(30) {
+					call = fmt.Sprintf("/* @__PURE__ */ %s?.(%s)", t, args)
+				}
+				switch r.Intn(6) {
+				case 0:
+					id++
+					stmt("$(%d, %s);", id, call) // used
+				case 1:
+					stmt("void %s;", call)
+				case 2:
+					stmt("%s, %s;", probe(), call)
+				default:
+					stmt("%s;", call)
+				}
+				continue
+			}
+			g, nonNull := guard()
+			c := chain("p", r.Range(1, 4))
+			switch r.Intn(8) {
+			case 0, 1, 2:
+				if nonNull {
+					stmt("%s && %s;", g, c)
+				} else {
+					stmt("%s || %s;", g, c)
+				}
+			case 3:
+				id++
+				if nonNull {
+					stmt("$(%d, %s ? %s : void 0);", id, g, c)
+				} else {
+					stmt("$(%d, %s ? void 0 : %s);", id, g, c)
+				}
+			case 4:
+				id++
+				if nonNull {
+					stmt("$(%d, %s ? p : %s);", id, g, probe())
+				} else {
+					stmt("$(%d, %s ? %s : p);", id, g, probe())
+				}
+			case 5:
+				id++
+				if nonNull {
+					stmt("$(%d, %s && %s);", id, g, c)
+				} else {
+					stmt("$(%d, %s || %s);", id, g, c)
+				}
+			case 6:
+				if nonNull {
+					stmt("if (%s) %s;", g, c)
+				} else {
+					stmt("if (!(%s)) %s;", g, c)
+				}
+			default:
+				stmt("%s;", chain("p", r.Range(1, 4)))
+			}
+		}
+		s.ind -= 2
+		s.line("}")
+	}
+	// the objects: links that are null at different depths; getters and methods log
+	id++
+	base := id
+	s.line("var pf = pureFn;")
+	s.line("function mkm(k, v) { return function(x) { $(%d, k); return v; }; }", base)
+	s.line("var o1 = {q: null, y: void 0, pf: pf, m: mkm(\"m1\", null)};")
+	s.line("var o2 = {q: {y: null, q: 0, pf: pf, m: mkm(\"m2q\", void 0)}, y: {q: null}, z: 0, pf: pf, m: mkm(\"m2\", {y: null})};")
+	s.line("var o3 = {q: {y: {z: 1, q: {y: 2}, pf: pf, m: mkm(\"m3y\", {q: 1})}, q: {q: null}, pf: pf, m: mkm(\"m3q\", {y: {z: 3}})}, y: {y: {y: 1}}, z: {q: 1}, pf: pf, m: mkm(\"m3\", {q: {y: 4}, y: {z: 5}})};")
+	s.line("var o4 = {get q() { $(%d, \"get q\"); return o3.q; }, get y() { $(%d, \"get y\"); return null; }, z: void 0, m: mkm(\"m4\", o3)};", base, base)
+	for f := 0; f < nf; f++ {
+		grid := []string{"null", "undefined", "o1", "o2", "o3", "o4", "0", "\"\""}
+		if pureFn[f] {
+			grid = []string{"null", "undefined", "o1", "o2", "o3"}
+		}
+		for _, a := range grid {
+			id++
+			s.line("try { $(%d, ch%d(%s)); } catch (e) { $(%d, [\"thrown\", e instanceof Error ? e.constructor.name : e]); }", id, f, a, id)
+		}
+	}
+	return "(function() {\n" + s.String() + "})();\n"
+}
+
 // numeric-type programs: BigInt and Number run-time values flowing through
 // arithmetic / bitwise / update sub-expressions under unary - and ~, compared
 // with === / !== against numbers, converted by Number(), typeof'd: a wrong static
@@ -1495,6 +1659,8 @@ func runGlue(r *Rng, n int, tier string, st *Stats) {
 	for i := 0; i < nprog; i++ {
 		seed := r.U64()
 		switch {
+		case i%20 == 2:
+			jobs = append(jobs, glueJob{kind: "chain", seed: seed, source: genChain(seed), loader: api.LoaderJS})
 		case i%10 == 3:
 			jobs = append(jobs, glueJob{kind: "num-types", seed: seed, source: genNumTypes(seed), loader: api.LoaderJS})
 		case i%10 == 4:
